@@ -373,11 +373,14 @@ func (c *copier) copy(ctx context.Context, src, srcComponents, target string, ov
 	}
 
 	if include {
-		if err := c.removeTargetIfNeeded(target, fi, targetFi); err != nil {
+		// Delayed parent directories first: this is where a symlink sitting
+		// at a parent's position in the destination is detected. Removing
+		// the target before that check would remove it through the link.
+		if err := c.createParentDirs(src, overwriteTargetMetadata); err != nil {
 			return err
 		}
 
-		if err := c.createParentDirs(src, overwriteTargetMetadata); err != nil {
+		if err := c.removeTargetIfNeeded(target, fi, targetFi); err != nil {
 			return err
 		}
 	}
